@@ -79,8 +79,8 @@ func genB1T6() {
 	g.def("b1t8Masks", "List Nat", "["+strings.Join(masks, ", ")+"]")
 	g.def("b1t8Shifts", "List Nat", "["+strings.Join(shifts, ", ")+"]")
 	// b1t8.go translated as code (tied to the model in Iota/Tie/B1T8Code.lean); not pinned by text
-	g.raw("namespace b1t8\n" + translateLoopFuncs(q, "EncodedLen", "Encode", "Decode") + "end b1t8\n")
-	for _, n := range []string{"Encode", "Decode"} {
+	g.raw("namespace b1t8\n" + translateLoopFuncs(q, "EncodedLen", "DecodedLen", "Encode", "Decode") + "end b1t8\n")
+	for _, n := range []string{"EncodedLen", "DecodedLen", "Encode", "Decode"} {
 		pinnedFns[q.method(n)] = true
 	}
 	g.rest(q, "b1t8")
@@ -398,7 +398,7 @@ func genCurl() {
 	g.raw(translateFunc(p, "sBox"))
 	g.raw(translateFunc(p, "bool2int"))
 	// the per-lane packing, the reset, the state copy and the portable permutation translated as code (tied to the model in
-	// Iota/Tie/CurlCode.lean); not pinned by text.  `!disjoint`: CopyState(l, h) assumes that the caller's l and h do not
+	// Iota/Tie/CurlCodeLanes.lean, CurlCodePerm.lean, CurlCodeSponge.lean); not pinned by text.  `!disjoint`: CopyState(l, h) assumes that the caller's l and h do not
 	// overlap (documented API assumption); transformGeneric assumes four pairwise distinct arrays, which
 	// checkDistinctArrays establishes at its only call chain Curl.transform -> transform -> transformGeneric.
 	// Absorb and Squeeze call c.transform(), whose body calls the build-dependent `transform` (assembly on amd64): it is
